@@ -196,36 +196,16 @@ Proof.
     rewrite (R2 eq_refl eq_refl). reflexivity.
 Qed.
 
-(* ---- Remove: write and search permission on the parent; the sticky rule is a listed deviation ------------------ *)
-Definition no_sticky_refusal (s : fsys) (sv : sview) (cs : list str) : Prop :=
-  forall par kind name n, klookup s sv false false (abs_path cs) = WNode par kind name n ->
-    sticky_refuses (f_heap s) par n (v_user (sv_view sv)) = false.
-
-Lemma sticky_refuses_plain (h : heap) (par n : nat) (u : user) :
-  is_sticky (m_mode (meta_of h par)) = false -> sticky_refuses h par n u = false.
-Proof. intros H. unfold sticky_refuses. rewrite H. reflexivity. Qed.
-
-Lemma sticky_refuses_owner (h : heap) (par n : nat) (u : user) :
-  m_uid (meta_of h n) = us_uid u -> sticky_refuses h par n u = false.
-Proof. intros H. unfold sticky_refuses. rewrite H, Z.eqb_refl. cbn [negb]. rewrite andb_false_r. reflexivity. Qed.
-
-Lemma may_delete_nosticky (h : heap) (par n : nat) (isdir : bool) (u : user) :
-  sticky_refuses h par n u = false ->
-  may_delete h par n isdir u
-  = if negb (kperm h par 3 u) then Some EACCES
-    else if isdir then (if node_is_dir h n then None else Some ENOTDIR)
-    else (if node_is_dir h n then Some EISDIR else None).
-Proof. intros H. unfold may_delete. rewrite H. reflexivity. Qed.
-
+(* ---- Remove: write and search permission on the parent, then the sticky rule (EPERM) ----------------------------- *)
 Theorem dstep_remove (s : fsys) (sv : sview) (w : list str) (cl : str) :
-  dac_hyps s sv -> path_ok s sv SlLstat (w ++ [cl]) -> sym_single (f_heap s) -> no_sticky_refusal s sv (w ++ [cl]) ->
+  dac_hyps s sv -> path_ok s sv SlLstat (w ++ [cl]) -> sym_single (f_heap s) ->
   let p := abs_path (w ++ [cl]) in
   (fst (remove s (sv_view sv) p), proj_res Linux (snd (remove s (sv_view sv) p))) = go_remove s sv p.
 Proof.
-  intros H Hp Hss Hst p. pose proof (dresolve s sv SlLstat (w ++ [cl]) H Hp) as R.
+  intros H Hp Hss p. pose proof (dresolve s sv SlLstat (w ++ [cl]) H Hp) as R.
   destruct Hp as (Hg & Hk1 & Hnf). change (follow_of SlLstat) with false in R, Hk1. change (precise_of SlLstat) with true in R.
   destruct (klookup_pm s sv false w cl Hg Hk1) as (Hkn & Hkg & Hpm).
-  unfold p, remove, go_remove, k_unlink, k_rmdir. rewrite Hpm. unfold no_sticky_refusal in Hst.
+  unfold p, remove, go_remove, k_unlink, k_rmdir. rewrite Hpm.
   pose proof (klookup_final s sv false (w ++ [cl]) Hg) as Hfin.
   destruct (klookup s sv false false (abs_path (w ++ [cl]))) as [par kind name n|par name md| |e] eqn:HK; cbn [walk_rel] in R.
   - destruct (Hkn _ _ _ _ eq_refl) as (-> & ->). destruct Hfin as (F1 & F2 & F3).
@@ -237,8 +217,9 @@ Proof.
     rewrite R2, R5, R1, V1, F1. cbn [is_file_exists negb].
     replace (Nat.eqb par n) with false by (symmetry; apply Nat.eqb_neq; congruence).
     rewrite (perm_on_write_searchable _ _ _ F3).
-    rewrite !(may_delete_nosticky _ _ _ _ _ (Hst _ _ _ _ eq_refl)).
+    unfold may_delete.
     destruct (kperm (f_heap s) par 3 (v_user (sv_view sv))); cbn [negb]; [|reflexivity].
+    destruct (sticky_refuses (f_heap s) par n (v_user (sv_view sv))); [reflexivity|].
     destruct (get (f_heap s) n) as [[ch m|dt k i m|t m]|] eqn:Hgn; [| | |congruence].
     + assert (Hnd : node_is_dir (f_heap s) n = true) by (unfold node_is_dir; rewrite Hgn; reflexivity).
       rewrite Hnd. unfold dir_nonempty. rewrite Hgn. destruct ch; reflexivity.
@@ -745,12 +726,11 @@ Definition rename_one_error (s : fsys) (sv : sview) (co cn : list str) : Prop :=
 Theorem dstep_rename_file_new (s : fsys) (sv : sview) (wo : list str) (clo : str) (w : list str) (cl : str) :
   dac_hyps s sv -> path_ok s sv SlLstat (wo ++ [clo]) -> path_ok s sv SlLstat (w ++ [cl]) ->
   source_not_dir s sv (wo ++ [clo]) -> dest_absent s sv (w ++ [cl]) -> rename_one_error s sv (wo ++ [clo]) (w ++ [cl]) ->
-  no_sticky_refusal s sv (wo ++ [clo]) ->
   let o := abs_path (wo ++ [clo]) in
   let p := abs_path (w ++ [cl]) in
   (fst (rename s (sv_view sv) o p), proj_res Linux (snd (rename s (sv_view sv) o p))) = go_rename s sv o p.
 Proof.
-  intros H Hpo Hp Hnd Hab Hone Hst o p.
+  intros H Hpo Hp Hnd Hab Hone o p.
   pose proof (dresolve s sv SlLstat (wo ++ [clo]) H Hpo) as Ro. pose proof (dresolve s sv SlLstat (w ++ [cl]) H Hp) as R.
   destruct Hpo as (Hgo & Hko1 & Hnfo). destruct Hp as (Hg & Hk1 & Hnf).
   change (follow_of SlLstat) with false in Ro, R, Hk1, Hko1. change (precise_of SlLstat) with true in Ro, R.
@@ -761,7 +741,7 @@ Proof.
   unfold o, p, rename, go_rename, k_stat, k_rename, win. rewrite (dh_os _ _ H). cbn [ostype_eqb]. rewrite Hopm, Hpm.
   set (ro := search_node s (sv_view sv) (abs_path (wo ++ [clo])) SlLstat) in *.
   set (rn := search_node s (sv_view sv) (abs_path (w ++ [cl])) SlLstat) in *.
-  unfold source_not_dir in Hnd. unfold dest_absent in Hab. unfold rename_one_error in Hone. unfold no_sticky_refusal in Hst.
+  unfold source_not_dir in Hnd. unfold dest_absent in Hab. unfold rename_one_error in Hone.
   destruct (klookup s sv false false (abs_path (w ++ [cl]))) as [par kind name n|par name md| |e] eqn:HK; cbn [walk_rel] in R;
     [exfalso; exact (Hab _ _ _ _ eq_refl)| |destruct R|].
   - (* the destination's directory is found, the destination does not exist *)
@@ -771,14 +751,16 @@ Proof.
     + destruct (Hokn _ _ _ _ eq_refl) as (-> & ->). destruct Hofin as (G1 & G2 & G3).
       destruct Ro as (O1 & O2 & O3 & _ & _ & O4). destruct (O4 eq_refl) as (O5 & O6).
       destruct (at_name_views _ _ _ _ _ _ (O6 eq_refl)) as (W1 & W2 & do & W3 & W4 & W5).
-      specialize (Hnd _ _ _ _ eq_refl). specialize (Hst _ _ _ _ eq_refl).
+      specialize (Hnd _ _ _ _ eq_refl).
+      assert (Hocp : Nat.eqb oc op = false) by (apply Nat.eqb_neq; intros ->; congruence).
       assert (Hsame : str_eqb (pi_path (sr_pi ro)) (pi_path (sr_pi rn)) = false).
       { apply str_eqb_neq. rewrite W3, V3. intros E. apply abs_path_inj in E; [|apply Forall_comp_ok_of; assumption..].
         apply app_inj_tail in E as (-> & ->). rewrite W4 in V4. injection V4 as ->. congruence. }
-      rewrite O1, R1, V2, O5, O2, R3, R2, V1, W1, Hsame. cbn [is_file_exists is_not_exist negb andb orb].
+      rewrite O1, R1, V2, O5, O2, R3, R2, V1, W1, Hsame, Hocp. cbn [is_file_exists is_not_exist negb andb orb].
       rewrite (perm_on_write_searchable _ _ _ G3), (perm_on_write_searchable _ _ _ F3).
-      rewrite G1, F1, Hnd, (may_delete_nosticky _ _ _ _ _ Hst), Hnd. cbn [negb andb orb].
+      rewrite G1, F1, Hnd. unfold may_delete. rewrite Hnd. cbn [negb andb orb].
       destruct (kperm (f_heap s) op 3 (v_user (sv_view sv))) eqn:Hpo; cbn [negb]; [|reflexivity].
+      destruct (sticky_refuses (f_heap s) op oc (v_user (sv_view sv))); [reflexivity|].
       destruct (Nat.eqb_spec par op) as [->|Hne]; cbn [negb andb].
       * rewrite Hpo. cbn [negb].
         destruct (get (f_heap s) oc) as [[ch m|dt k i m|t m]|] eqn:Hgoc; [unfold node_is_dir in Hnd; rewrite Hgoc in Hnd; discriminate| | |congruence];
@@ -827,13 +809,13 @@ Definition moved_dir_writable (s : fsys) (sv : sview) (co cn : list str) : Prop 
 Theorem dstep_rename_dir_new (s : fsys) (sv : sview) (wo : list str) (clo : str) (w : list str) (cl : str) :
   dac_hyps s sv -> path_ok s sv SlLstat (wo ++ [clo]) -> path_ok s sv SlLstat (w ++ [cl]) ->
   source_is_dir s sv (wo ++ [clo]) -> dest_absent s sv (w ++ [cl]) -> rename_one_error s sv (wo ++ [clo]) (w ++ [cl]) ->
-  no_sticky_refusal s sv (wo ++ [clo]) -> not_into_itself s sv (wo ++ [clo]) (w ++ [cl]) ->
+  not_into_itself s sv (wo ++ [clo]) (w ++ [cl]) ->
   moved_dir_writable s sv (wo ++ [clo]) (w ++ [cl]) ->
   let o := abs_path (wo ++ [clo]) in
   let p := abs_path (w ++ [cl]) in
   (fst (rename s (sv_view sv) o p), proj_res Linux (snd (rename s (sv_view sv) o p))) = go_rename s sv o p.
 Proof.
-  intros H Hpo Hp Hnd Hab Hone Hst Hni Hmw o p.
+  intros H Hpo Hp Hnd Hab Hone Hni Hmw o p.
   pose proof (dresolve s sv SlLstat (wo ++ [clo]) H Hpo) as Ro. pose proof (dresolve s sv SlLstat (w ++ [cl]) H Hp) as R.
   destruct Hpo as (Hgo & Hko1 & Hnfo). destruct Hp as (Hg & Hk1 & Hnf).
   change (follow_of SlLstat) with false in Ro, R, Hk1, Hko1. change (precise_of SlLstat) with true in Ro, R.
@@ -844,7 +826,7 @@ Proof.
   unfold o, p, rename, go_rename, k_stat, k_rename, win. rewrite (dh_os _ _ H). cbn [ostype_eqb]. rewrite Hopm, Hpm.
   set (ro := search_node s (sv_view sv) (abs_path (wo ++ [clo])) SlLstat) in *.
   set (rn := search_node s (sv_view sv) (abs_path (w ++ [cl])) SlLstat) in *.
-  unfold source_is_dir in Hnd. unfold dest_absent in Hab. unfold rename_one_error in Hone. unfold no_sticky_refusal in Hst.
+  unfold source_is_dir in Hnd. unfold dest_absent in Hab. unfold rename_one_error in Hone.
   unfold not_into_itself in Hni. unfold moved_dir_writable in Hmw.
   destruct (klookup s sv false false (abs_path (w ++ [cl]))) as [par kind name n|par name md| |e] eqn:HK; cbn [walk_rel] in R;
     [exfalso; exact (Hab _ _ _ _ eq_refl)| |destruct R|].
@@ -854,7 +836,7 @@ Proof.
     + destruct (Hokn _ _ _ _ eq_refl) as (-> & ->). destruct Hofin as (G1 & G2 & G3).
       destruct Ro as (O1 & O2 & O3 & _ & _ & O4). destruct (O4 eq_refl) as (O5 & O6).
       destruct (at_name_views _ _ _ _ _ _ (O6 eq_refl)) as (W1 & W2 & do & W3 & W4 & W5).
-      specialize (Hnd _ _ _ _ eq_refl). specialize (Hst _ _ _ _ eq_refl).
+      specialize (Hnd _ _ _ _ eq_refl).
       destruct (Hni _ _ _ _ _ _ _ eq_refl eq_refl) as (N1 & N2). specialize (Hmw _ _ _ _ _ _ _ eq_refl eq_refl).
       assert (Hne : oc <> op).
       { intros ->. apply (ww_acyclic _ (dh_wf _ _ H) op). exists op, clo. split; [constructor|]. apply alookup_in. exact G1. }
@@ -862,9 +844,10 @@ Proof.
       fold ro rn in N2. change (sepc Linux) with SLASH.
       rewrite O1, R1, V2, O5, O2, R3, R2, V1, W1, N2. cbn [is_file_exists is_not_exist negb andb orb].
       rewrite (perm_on_write_searchable _ _ _ G3), (perm_on_write_searchable _ _ _ F3).
-      rewrite G1, F1, Hnd, N1, (may_delete_nosticky _ _ _ _ _ Hst), Hnd, Hgoc. cbn [negb andb orb].
-      replace (Nat.eqb oc op) with false by (symmetry; apply Nat.eqb_neq; exact Hne). cbn [orb].
+      rewrite G1, F1, Hnd, N1. unfold may_delete. rewrite Hnd, Hgoc. cbn [negb andb orb].
+      replace (Nat.eqb oc op) with false by (symmetry; apply Nat.eqb_neq; exact Hne). cbn [orb negb andb].
       destruct (kperm (f_heap s) op 3 (v_user (sv_view sv))) eqn:Hpo; cbn [negb]; [|reflexivity].
+      destruct (sticky_refuses (f_heap s) op oc (v_user (sv_view sv))); [reflexivity|].
       destruct (Nat.eqb_spec par op) as [->|Hnp]; cbn [negb andb].
       * rewrite Hpo, Nat.eqb_refl. cbn [negb andb fst snd proj_res].
         rewrite (move_comm _ _ _ _ _ _ G2 F2) by (intros _ ->; congruence). reflexivity.
@@ -917,12 +900,11 @@ Theorem dstep_rename_replace_result (s : fsys) (sv : sview) (wo : list str) (clo
   dac_hyps s sv -> path_ok s sv SlLstat (wo ++ [clo]) -> path_ok s sv SlLstat (w ++ [cl]) ->
   source_not_dir s sv (wo ++ [clo]) -> dest_present s sv (w ++ [cl]) -> dest_nondir s sv (w ++ [cl]) ->
   distinct_nodes s sv (wo ++ [clo]) (w ++ [cl]) ->
-  no_sticky_refusal s sv (wo ++ [clo]) -> no_sticky_refusal s sv (w ++ [cl]) ->
   let o := abs_path (wo ++ [clo]) in
   let p := abs_path (w ++ [cl]) in
   proj_res Linux (snd (rename s (sv_view sv) o p)) = snd (go_rename s sv o p).
 Proof.
-  intros H Hpo Hp Hnd (npar & nkind & nname & nc & HK) Hdn Hdist Hst Hstn o p.
+  intros H Hpo Hp Hnd (npar & nkind & nname & nc & HK) Hdn Hdist o p.
   pose proof (dresolve s sv SlLstat (wo ++ [clo]) H Hpo) as Ro. pose proof (dresolve s sv SlLstat (w ++ [cl]) H Hp) as R.
   destruct Hpo as (Hgo & Hko1 & Hnfo). destruct Hp as (Hg & Hk1 & Hnf).
   change (follow_of SlLstat) with false in Ro, R, Hk1, Hko1. change (precise_of SlLstat) with true in Ro, R.
@@ -933,12 +915,12 @@ Proof.
   unfold o, p, rename, go_rename, k_stat, k_rename, win. rewrite (dh_os _ _ H). cbn [ostype_eqb]. rewrite Hopm, Hpm.
   set (ro := search_node s (sv_view sv) (abs_path (wo ++ [clo])) SlLstat) in *.
   set (rn := search_node s (sv_view sv) (abs_path (w ++ [cl])) SlLstat) in *.
-  unfold source_not_dir in Hnd. unfold dest_nondir in Hdn. unfold distinct_nodes in Hdist. unfold no_sticky_refusal in Hst, Hstn.
+  unfold source_not_dir in Hnd. unfold dest_nondir in Hdn. unfold distinct_nodes in Hdist.
   rewrite HK in *. cbn [walk_rel] in R.
   destruct (Hkn _ _ _ _ eq_refl) as (-> & ->). destruct Hfin as (F1 & F2 & F3).
   destruct R as (R1 & R2 & R3 & _ & _ & R4). destruct (R4 eq_refl) as (R5 & R6).
   destruct (at_name_views _ _ _ _ _ _ (R6 eq_refl)) as (V1 & V2 & dn & V3 & V4 & V5).
-  destruct (Hdn _ _ _ _ eq_refl) as (Hncd & Hncm). specialize (Hstn _ _ _ _ eq_refl).
+  destruct (Hdn _ _ _ _ eq_refl) as (Hncd & Hncm).
   assert (Hpre : forall nm, has (fi_mode (k_info (f_heap s) nc nm)) MODE_DIR = false).
   { intros nm. unfold k_info, meta_of in *. destruct (get (f_heap s) nc) as [[? ?|? ? ? ?|? ?]|]; exact Hncm. }
   rewrite Hpre.
@@ -946,28 +928,32 @@ Proof.
   - destruct (Hokn _ _ _ _ eq_refl) as (-> & ->). destruct Hofin as (G1 & G2 & G3).
     destruct Ro as (O1 & O2 & O3 & _ & _ & O4). destruct (O4 eq_refl) as (O5 & O6).
     destruct (at_name_views _ _ _ _ _ _ (O6 eq_refl)) as (W1 & W2 & do & W3 & W4 & W5).
-    specialize (Hnd _ _ _ _ eq_refl). specialize (Hst _ _ _ _ eq_refl). specialize (Hdist _ _ _ _ _ _ _ _ eq_refl eq_refl).
+    specialize (Hnd _ _ _ _ eq_refl). specialize (Hdist _ _ _ _ _ _ _ _ eq_refl eq_refl).
+    assert (Hocp : Nat.eqb oc op = false) by (apply Nat.eqb_neq; intros ->; congruence).
     assert (Hsame : str_eqb (pi_path (sr_pi ro)) (pi_path (sr_pi rn)) = false).
     { apply str_eqb_neq. rewrite W3, V3. intros E. apply abs_path_inj in E; [|apply Forall_comp_ok_of; assumption..].
       apply app_inj_tail in E as (-> & ->). rewrite W4 in V4. injection V4 as ->. congruence. }
-    rewrite O1, R1, O5, O2, R5, R2, Hsame. cbn [is_file_exists is_not_exist negb andb orb].
+    rewrite O1, R1, O5, O2, R5, R2, Hsame, Hocp. cbn [is_file_exists is_not_exist negb andb orb].
     rewrite (perm_on_write_searchable _ _ _ G3), (perm_on_write_searchable _ _ _ F3).
     rewrite G1, F1, Hnd. cbn [negb andb orb].
     rewrite (is_ancestor_nondir _ _ _ Hncd) by (intros ->; rewrite G2 in Hncd; discriminate Hncd).
     replace (Nat.eqb nc oc) with false by (symmetry; apply Nat.eqb_neq; congruence).
-    rewrite (may_delete_nosticky _ _ _ _ _ Hst), (may_delete_nosticky _ _ _ _ _ Hstn), Hnd, Hncd.
+    unfold may_delete. rewrite Hnd, Hncd.
     assert (Hne : dir_nonempty (f_heap s) nc = false).
     { unfold dir_nonempty, node_is_dir in *. destruct (get (f_heap s) nc) as [[? ?|? ? ? ?|? ?]|]; try reflexivity. discriminate Hncd. }
     rewrite Hne.
     destruct (kperm (f_heap s) op 3 (v_user (sv_view sv))) eqn:Hpo; cbn [negb]; [|reflexivity].
+    destruct (sticky_refuses (f_heap s) op oc (v_user (sv_view sv))); [reflexivity|].
     destruct (Nat.eqb_spec npar op) as [->|Hnp]; cbn [negb andb].
     + rewrite Hpo. cbn [negb].
       unfold node_is_dir in Hnd, Hncd.
-      destruct (get (f_heap s) oc) as [[? ?|? ? ? ?|? ?]|]; try discriminate Hnd; try congruence;
+      destruct (sticky_refuses (f_heap s) op nc (v_user (sv_view sv)));
+        destruct (get (f_heap s) oc) as [[? ?|? ? ? ?|? ?]|]; try discriminate Hnd; try congruence;
         destruct (get (f_heap s) nc) as [[? ?|? ? ? ?|? ?]|]; try discriminate Hncd; try congruence; reflexivity.
     + destruct (kperm (f_heap s) npar 3 (v_user (sv_view sv))); cbn [negb]; [|reflexivity].
       unfold node_is_dir in Hnd, Hncd.
-      destruct (get (f_heap s) oc) as [[? ?|? ? ? ?|? ?]|]; try discriminate Hnd; try congruence;
+      destruct (sticky_refuses (f_heap s) npar nc (v_user (sv_view sv)));
+        destruct (get (f_heap s) oc) as [[? ?|? ? ? ?|? ?]|]; try discriminate Hnd; try congruence;
         destruct (get (f_heap s) nc) as [[? ?|? ? ? ?|? ?]|]; try discriminate Hncd; try congruence; reflexivity.
   - destruct Ro as (O1 & _). pose proof (Hokg _ _ _ eq_refl) as ->. destruct Hofin as (G1 & _).
     rewrite O1, G1. reflexivity.
@@ -1023,7 +1009,6 @@ Definition dcovered (phl : bool) (vi : nat) (sw : sworld) (c : call) : Prop :=
       exists w cl, p = abs_path (w ++ [cl]) /\ path_ok s sv SlLstat (w ++ [cl])
   | CRemove vi' p =>
       vi' = vi /\ sym_single (f_heap s) /\ exists w cl, p = abs_path (w ++ [cl]) /\ path_ok s sv SlLstat (w ++ [cl])
-                                                       /\ no_sticky_refusal s sv (w ++ [cl])
   | CLink vi' o p =>
       vi' = vi /\ exists co w cl, o = abs_path co /\ p = abs_path (w ++ [cl]) /\ path_ok s sv SlLstat co
                                   /\ path_ok s sv SlLstat (w ++ [cl]) /\ not_symlink s sv co /\ link_permitted phl s sv co
@@ -1031,7 +1016,7 @@ Definition dcovered (phl : bool) (vi : nat) (sw : sworld) (c : call) : Prop :=
       vi' = vi /\ exists wo clo w cl, o = abs_path (wo ++ [clo]) /\ p = abs_path (w ++ [cl])
         /\ path_ok s sv SlLstat (wo ++ [clo]) /\ path_ok s sv SlLstat (w ++ [cl])
         /\ dest_absent s sv (w ++ [cl])
-        /\ rename_one_error s sv (wo ++ [clo]) (w ++ [cl]) /\ no_sticky_refusal s sv (wo ++ [clo])
+        /\ rename_one_error s sv (wo ++ [clo]) (w ++ [cl])
         /\ (source_not_dir s sv (wo ++ [clo])
             \/ (source_is_dir s sv (wo ++ [clo]) /\ not_into_itself s sv (wo ++ [clo]) (w ++ [cl])
                 /\ moved_dir_writable s sv (wo ++ [clo]) (w ++ [cl])))
@@ -1123,21 +1108,21 @@ Proof.
     + split; [|split; [reflexivity|exact Hv]]. left. left. specialize (HK r eq_refl). destruct r; try exact O2. exfalso. exact (HK _ eq_refl).
     + split; [apply obs_sim_refl|split; [reflexivity|exact Hv]].
   - (* Remove *)
-    destruct Hc as (-> & Hss & ww & cl & Ep & Hp & Hst).
+    destruct Hc as (-> & Hss & ww & cl & Ep & Hp).
     apply (dworld_of_lift phl w vi sw Ha _ (remove (w_fs w) (sv_view (sw_sv sw)) p) (go_remove (sw_fs sw) (sw_sv sw) p)).
     + apply (impl_lift w _ _ (wstep_remove w vi _ Hv p)); [left; discriminate|exact I].
     + reflexivity.
-    + rewrite <- Hfs, Ep. exact (dstep_remove (sw_fs sw) (sw_sv sw) ww cl H Hp Hss Hst).
+    + rewrite <- Hfs, Ep. exact (dstep_remove (sw_fs sw) (sw_sv sw) ww cl H Hp Hss).
   - (* Rename *)
-    destruct Hc as (-> & wo & clo & ww & cl & Eo & Ep & Hpo & Hp & Hab & Hone & Hst & Hkind).
+    destruct Hc as (-> & wo & clo & ww & cl & Eo & Ep & Hpo & Hp & Hab & Hone & Hkind).
     apply (dworld_of_lift phl w vi sw Ha _ (rename (w_fs w) (sv_view (sw_sv sw)) o n) (go_rename (sw_fs sw) (sw_sv sw) o n)).
     + assert (E : wstep w (CRename vi o n) = lift w (rename (w_fs w) (sv_view (sw_sv sw)) o n))
         by (unfold wstep, on_view; rewrite Hv; reflexivity).
       apply (impl_lift w _ _ E); [left; discriminate|exact I].
     + reflexivity.
     + rewrite <- Hfs, Eo, Ep. destruct Hkind as [Hnd|(Hd & Hni & Hmw)].
-      * exact (dstep_rename_file_new (sw_fs sw) (sw_sv sw) wo clo ww cl H Hpo Hp Hnd Hab Hone Hst).
-      * exact (dstep_rename_dir_new (sw_fs sw) (sw_sv sw) wo clo ww cl H Hpo Hp Hd Hab Hone Hst Hni Hmw).
+      * exact (dstep_rename_file_new (sw_fs sw) (sw_sv sw) wo clo ww cl H Hpo Hp Hnd Hab Hone).
+      * exact (dstep_rename_dir_new (sw_fs sw) (sw_sv sw) wo clo ww cl H Hpo Hp Hd Hab Hone Hni Hmw).
   - (* Link *)
     destruct Hc as (-> & co & ww & cl & Eo & Ep & Hpo & Hp & Hns & Hph).
     apply (dworld_of_lift phl w vi sw Ha _ (link (w_fs w) (sv_view (sw_sv sw)) o n) (k_link phl (sw_fs sw) (sw_sv sw) o n)).
